@@ -117,8 +117,20 @@ func answerClass(sc scenario) string {
 	return "-"
 }
 
+// flags: the measured behaviours of features.go that share one field: bit 0 rt, bit 1 sk.
+func (c *ctx) flags() string {
+	n := 0
+	if c.rt {
+		n |= 1
+	}
+	if c.sk {
+		n |= 2
+	}
+	return strconv.Itoa(n)
+}
+
 func (c *ctx) line(sc scenario, res result) string {
-	return fmt.Sprintf("run %d %s %d %d %d %s %s %s %s %s %s", sc.tee, common.B(sc.explicit), sc.domain, sc.remote, sc.state0, common.B(c.rr), common.B(c.rt),
+	return fmt.Sprintf("run %d %s %d %d %d %s %s %s %s %s %s", sc.tee, common.B(sc.explicit), sc.domain, sc.remote, sc.state0, common.B(c.rr), c.flags(),
 		sc.othersField(), sc.clearField(), sc.protField(), res.oracleField())
 }
 
@@ -440,6 +452,16 @@ func (c *ctx) probe() {
 			c.rt = false
 		}
 	}
+	// sk: a voluntary feature sets Authn; a required feature of the same list needs Authn and
+	// was therefore skipped when the list was read.  Ready, or "advertised out of order"?
+	res = c.exec(scenario{
+		others:  []other{{id: 1, nec: 1, negotiable: true}, {id: 2, nec: 3, negotiable: true}},
+		clear:   [][]unit{{hdr(true), list(it(0, true))}, {u('P')}},
+		prot:    []pu{{u: hdr(true)}, {u: list(it(1, false), it(2, true))}},
+		results: []negRes{{mask: 2}, {mask: 0}},
+	}, nil)
+	c.sk = strings.HasPrefix(res.outcome, "err.")
+	c.r.Extra["features.go: a skipped required feature that became negotiable makes the list an error (sk)"] = c.sk
 	c.r.Extra["features.go: Ready together with a new layer when nothing is required (rr)"] = c.rr
 	c.r.Extra["features.go: masks re-tested at selection (rt)"] = c.rt
 }
@@ -503,6 +525,25 @@ func (c *ctx) corpus(tees []int) {
 	for k := 0; k < 12; k++ {
 		c.check(scenario{others: bi, clear: [][]unit{{hdr(true), list(it(0, true), sa)}, {u('P')}}, prot: []pu{{u: hdr(true)}, {u: list()}}}, tees, "corpus-builtin")
 	}
+	// 7. after the TLS switch: lists that name STARTTLS again, unknown features, features whose
+	// Prohibited mask holds now, and a required feature that only becomes negotiable once a
+	// voluntary one of the same list has set Authn (round 3: thorough seed 7)
+	after := func(others []other, l unit, results ...negRes) {
+		c.check(scenario{others: others, clear: [][]unit{{hdr(true), list()}, {u('P')}},
+			prot: []pu{{u: hdr(true)}, {u: l}, {u: hdr(true)}, {u: list()}}, results: results, domain: 1}, tees, "corpus-after-tls")
+	}
+	a1 := []other{{id: 1, nec: 1, negotiable: true}, {id: 2, nec: 3, proh: 4, negotiable: true}, {id: 3, nec: 1, proh: 2, negotiable: true}}
+	after(a1, list(it(2, true), it(1, false), item{id: 9, ok: true}), negRes{mask: 2})
+	after(a1, list(it(1, false), it(2, true), it(2, true)), negRes{mask: 2})
+	after(a1, list(it(1, false), it(2, false)), negRes{mask: 2})                  // skipped but voluntary
+	after(a1, list(it(1, false), it(2, true)), negRes{mask: 0})                   // stays non-negotiable
+	after(a1, list(it(1, true), it(2, true)), negRes{mask: 2})                    // the required one first
+	after(a1, list(it(1, false), it(2, true)), negRes{mask: 2, restart: true})    // a restart comes first
+	after(a1, list(it(0, false), it(1, false)), negRes{mask: 0})                  // STARTTLS advertised again
+	after(a1, list(it(0, true)))                                                  // … alone and required
+	after(a1, list(it(3, false), it(1, false)), negRes{mask: 2}, negRes{mask: 0}) // 3 prohibited once Authn
+	after(a1, list(it(3, true), it(1, false)), negRes{mask: 2}, negRes{mask: 0})
+	after([]other{{id: 1, nec: 1, negotiable: true}, {id: 2, nec: 3, negotiable: false}}, list(it(1, false), it(2, true)), negRes{mask: 2}) // informational
 	// 5. clear text pipelined behind <proceed/>
 	c.pipelined(scenario{clear: [][]unit{{hdr(true), list(it(0, true))}, {u('P')}}, prot: []pu{{u: hdr(true)}, {u: list()}}},
 		[]unit{hdr(true), list()}, tees, "corpus")
@@ -787,6 +828,9 @@ func (c *ctx) deep(n int, tees []int) {
 			if rnd.Chance(1, 4) {
 				o.proh = 2
 			}
+			if rnd.Chance(1, 3) {
+				o.nec = 3 // needs Authn as well: skipped when the list is read before Authn is set
+			}
 			sc.others = append(sc.others, o)
 		}
 		sc.clear = [][]unit{{hdr(true), list(it(0, !rnd.Chance(1, 5)))}, {u('P')}}
@@ -805,7 +849,7 @@ func (c *ctx) deep(n int, tees []int) {
 			if rnd.Chance(1, 4) {
 				l.items = append(l.items, item{id: 9, req: rnd.Bool(), ok: true})
 			}
-			if rnd.Chance(1, 5) {
+			if rnd.Chance(1, 3) {
 				// a second configured feature in the same list
 				l.items = append(l.items, item{id: 1 + rnd.Intn(3), req: rnd.Bool(), ok: true})
 			}
